@@ -289,7 +289,10 @@ func (g *replayGen) build(sb *strings.Builder, t types.Type, expr, path string) 
 		if !ok2 || cp < ln {
 			cp = ln
 		}
-		if cp > 1<<20 {
+		if cp > 1<<16 {
+			cp = ln // capacity is irrelevant beyond the length for everything but append's reallocation
+		}
+		if ln > 1<<20 {
 			g.tooBig = fmt.Sprintf("%s has len %d cap %d", path, ln, cp)
 			return
 		}
